@@ -226,6 +226,26 @@ impl Debugger {
         Ok(None)
     }
 
+    /// True if the thread in focus is stopped in a frame that is deeper than the frame with
+    /// the given CFA (`or_same`: or in that very frame). Unknown CFAs compare as false.
+    fn stopped_not_above(&self, start_cfa: Option<RelocatedAddress>, or_same: bool) -> bool {
+        let Some(start_cfa) = start_cfa else {
+            return false;
+        };
+        if self.debugee.is_exited() {
+            return false;
+        }
+        let location = self.ecx().location();
+        let Ok(debug_info) = self.debugee.debug_info(location.pc) else {
+            return false;
+        };
+        match debug_info.get_cfa(&self.debugee, &ExplorationContext::new(location, 0)) {
+            Ok(cfa) if or_same => cfa <= start_cfa,
+            Ok(cfa) => cfa < start_cfa,
+            Err(_) => false,
+        }
+    }
+
     /// Move to higher stack frame.
     ///
     /// **! change exploration context**
@@ -239,10 +259,32 @@ impl Debugger {
             if brkpt_is_set {
                 self.continue_execution()?;
             } else {
+                // CFA of the frame to leave. In a recursive function deeper activations
+                // return to the same address first: the frame they return into is not older
+                // than this one.
+                let start_cfa = debug_info
+                    .get_cfa(&self.debugee, &ExplorationContext::new(location, 0))
+                    .ok();
                 let brkpt =
                     Breakpoint::new_temporary(debug_info.pathname(), ret_addr, location.pid);
                 self.breakpoints.add_and_enable(brkpt)?;
-                self.continue_execution()?;
+                loop {
+                    let stop_reason = self.continue_execution();
+                    match stop_reason {
+                        Ok(StopReason::Breakpoint(pid, addr))
+                            if pid == location.pid
+                                && addr == ret_addr
+                                && self.stopped_not_above(start_cfa, true) =>
+                        {
+                            continue;
+                        }
+                        Ok(_) => break,
+                        Err(e) => {
+                            _ = self.remove_breakpoint(Address::Relocated(ret_addr));
+                            return Err(e);
+                        }
+                    }
+                }
                 self.remove_breakpoint(Address::Relocated(ret_addr))?;
             }
         }
@@ -373,7 +415,25 @@ impl Debugger {
             to_delete.push(ret_addr);
         }
 
-        let stop_reason = self.continue_execution()?;
+        // CFA of the frame the step starts in: a temporary breakpoint hit by a deeper activation
+        // of the same (recursive) function is not a stop of this step
+        let start_cfa = dwarf
+            .get_cfa(
+                &self.debugee,
+                &ExplorationContext::new(current_location, 0),
+            )
+            .ok();
+        let stop_reason = loop {
+            let stop_reason = self.continue_execution()?;
+            if let StopReason::Breakpoint(pid, addr) = stop_reason
+                && pid == current_location.pid
+                && to_delete.contains(&addr)
+                && self.stopped_not_above(start_cfa, false)
+            {
+                continue;
+            }
+            break stop_reason;
+        };
 
         to_delete
             .into_iter()
